@@ -69,6 +69,26 @@ class Session:
             self.stats["z3"] += 1
             self.stats["z3_time"] += time.time() - t0
             backend = "z3"
+            hint_model = None
+            hints = getattr(ctx, "ghost", {}).get("sat_hints")
+            if r == z3.unknown and hints and not getattr(ctx, "quantified", None):
+                # Counterexample hints (given by the contract's setup, e.g. a fixed duration that makes the
+                # products linear): a model of (path condition, not goal, hints) is a model of (path
+                # condition, not goal).  Only a `sat` is used; anything else leaves the result unknown.
+                s.push()
+                try:
+                    s.add(*hints)
+                    t1 = time.time()
+                    if s.check() == z3.sat:
+                        hint_model = model_to_dict(s.model())
+                        hint_model["__hint__"] = "counter-model found under the contract's search hints " + \
+                            ", ".join(str(h) for h in hints)
+                    self.stats["z3_time"] += time.time() - t1
+                finally:
+                    s.pop()
+                if hint_model is not None:
+                    r = z3.sat
+                    backend = "z3(search hints)"
             if r == z3.unknown:
                 from .purify import second_chance, third_chance
                 t1 = time.time()
@@ -135,7 +155,7 @@ class Session:
             if r == z3.sat:
                 if getattr(ctx, "quantified", None):
                     s.check()           # restore the model of the instance-level problem
-                model = model_to_dict(s.model())
+                model = hint_model if hint_model is not None else model_to_dict(s.model())
                 if getattr(ctx, "ghost", {}).get("lazy_axioms"):
                     # axioms of symbolic sets / sorted() / universal ghost statements were instantiated
                     # lazily (pyvc/floatsets.py): the model is a CANDIDATE, to be replayed natively
